@@ -579,7 +579,7 @@ func (x *Exec) callMods(c *ssa.CallCommon, li *loopInfo, seen map[*ssa.Function]
 		li.allocs = true
 		return
 	}
-	if fc := x.prog.contractFor(callee); fc != nil && !fc.Inline && !x.inlineHere(fc) {
+	if fc := x.prog.contractFor(callee); fc != nil && !fc.Inline && !fc.InlineAtCalls && !x.inlineHere(fc) {
 		if modifiesEverything(fc) {
 			li.modAll = true
 			li.modAllOK = true
@@ -798,6 +798,85 @@ func (x *Exec) loopEnv(st *State, li *loopInfo) *CEnv {
 	return env
 }
 
+// contractIdents: every identifier that occurs in the function's contract.
+func (x *Exec) contractIdents() map[string]bool {
+	if x.fcIdents != nil {
+		return x.fcIdents
+	}
+	ids := map[string]bool{}
+	var walk func(e *CExpr)
+	walk = func(e *CExpr) {
+		if e == nil {
+			return
+		}
+		if e.Kind == "id" {
+			ids[e.Str] = true
+		}
+		for _, c := range []*CExpr{e.X, e.Y, e.Z, e.Lo, e.Hi, e.Body} {
+			walk(c)
+		}
+		for _, a := range e.Args {
+			walk(a)
+		}
+	}
+	fc := x.fc
+	for _, c := range fc.Requires {
+		walk(c.Expr)
+	}
+	for _, c := range fc.Ensures {
+		walk(c.Expr)
+	}
+	for _, u := range fc.Uses {
+		walk(u)
+	}
+	for _, ls := range fc.Loops {
+		for _, c := range ls.Invariants {
+			walk(c.Expr)
+		}
+		for _, c := range ls.Steps {
+			walk(c.Expr)
+		}
+		if ls.Decreases != nil {
+			walk(ls.Decreases.Expr)
+		}
+		for _, u := range ls.Uses {
+			walk(u)
+		}
+	}
+	for _, cls := range fc.CallSites {
+		for _, c := range cls {
+			walk(c.Expr)
+		}
+	}
+	for _, c := range fc.AppendSites {
+		walk(c.Expr)
+	}
+	for _, c := range fc.MapSites {
+		walk(c.Expr)
+	}
+	for _, cls := range fc.StoreReq {
+		for _, c := range cls {
+			walk(c.Expr)
+		}
+	}
+	for _, gs := range fc.CallGhost {
+		for _, g := range gs {
+			walk(g.Expr)
+		}
+	}
+	for _, us := range fc.CallUse {
+		for _, u := range us {
+			walk(u)
+		}
+	}
+	// parameters and results are never rename candidates
+	for _, p := range x.fn.Params {
+		ids[p.Name()] = true
+	}
+	x.fcIdents = ids
+	return ids
+}
+
 // bindLocals makes local variables available to invariants by source name.
 // When several cells carry the same name (shadowing, or one name per loop),
 // the cell that the loop itself reads or writes is preferred, then the one
@@ -848,6 +927,10 @@ func (x *Exec) bindLocals(env *CEnv, fr *Frame, li *loopInfo) {
 			}
 		}
 		env.vars[name] = fr.cells[best]
+		if env.locals == nil {
+			env.locals = map[string]SV{}
+		}
+		env.locals[name] = fr.cells[best]
 	}
 	// local arrays live in the element heaps; bind them by name as sequences
 	for v, sv := range fr.regs {
